@@ -537,8 +537,11 @@ func c09search(c *Ctx) {
 	c.R.Min(rule, 4, "two next closures, next, addParam")
 }
 
-func c09dispatch(c *Ctx) {
-	rule := "C09.R2"
+func c09dispatch(c *Ctx) { c09dispatchAs(c, "C09.R2", "C09.R5") }
+
+// c09dispatchAs runs the dispatch rules under other rule ids too (C18: which methods reach a handler behind a gate).
+func c09dispatchAs(c *Ctx, r2, r5 string) {
+	rule := r2
 	f := c.fn(rule, routerPkg, "(*patRouter).ServeHTTP")
 	if f == nil {
 		return
@@ -571,7 +574,7 @@ func c09dispatch(c *Ctx) {
 		}
 		return true, ""
 	})
-	rule = "C09.R5"
+	rule = r5
 	isServe := func(e *px.Event) bool {
 		return e.Kind == px.EvCall && e.Call.Method != nil && e.Call.Method.Name() == "ServeHTTP"
 	}
@@ -747,8 +750,8 @@ func c09dispatch(c *Ctx) {
 			return true, ""
 		})
 	}
-	c.R.Min("C09.R2", 1, "ServeHTTP#clean")
-	c.R.Min("C09.R5", 2, "ServeHTTP, methodsAllowed")
+	c.R.Min(r2, 1, "ServeHTTP#clean")
+	c.R.Min(r5, 2, "ServeHTTP, methodsAllowed")
 }
 
 func isBranchOnMethod(e *px.Event, methodP *ssa.Parameter) bool {
